@@ -81,6 +81,15 @@ PROPS = {
         "note": "Trusted: models of C01/C02; the GC accessor applies pickLogs' eligibility rules before calling the engine's own doRunGC/rewrite.",
         "design_ref": "7/C08", "assumptions": E1_ASSUME,
     },
+    "C06": {
+        "engine": "dbsim", "level": "exploration", "budget": {"quick": 25, "thorough": 600},
+        "title": "Iterators return exactly the live snapshot in order, honouring options",
+        "technique": "deterministic simulation: multi-version state built by committed transactions (deletes, TTLs on the fake clock, pending writes) or plain writes, maintenance placement, then Txn/DB iterators under generated option sets and seek targets compared with a reference scan",
+        "rule": "case = seeded state-building steps + maintenance + iterator probes (forward/reverse x lower/upper bound x prefix x key-only x all-versions x since-ts x pending writes, Rewind and two Seek targets each); the full output of every probe is compared with the model's scan (keys, values, versions, order) and, in latest-version mode, every yielded value with Txn.Get; distinct = distinct trace hash; non-trivial = at least one probe evaluated after a rotation or flush",
+        "level_text": "Seeded search over snapshot contents x storage layout x option sets with an executable reference scan as oracle.",
+        "note": "Trusted: the reference scan (written from the property statement), commit versions learned from ReadTs of a fresh transaction (single client).",
+        "design_ref": "7/C06", "assumptions": E1_ASSUME,
+    },
 }
 
 # Merge per-engine registries (props_<engine>.py).
